@@ -1288,3 +1288,63 @@ from productmd.common import _relative_to
 
 
 def _file_exists(path):'''))
+
+M("n78", "neutral", [], "Images._add_1_1 folded into the record loop of deserialize",
+  (IM, '''                    if self.header.version_tuple <= (1, 1):
+                        self._add_1_1(data, variant, arch, image_obj)
+                    else:
+                        self.add(variant, arch, image_obj)''', '''                    if self.header.version_tuple <= (1, 1) and arch == "src":
+                        # move src under binary arches
+                        for variant_arch in data["payload"]["images"][variant]:
+                            if variant_arch != "src":
+                                self.add(variant, variant_arch, image_obj)
+                    else:
+                        self.add(variant, arch, image_obj)'''),
+  (IM, '''    def _add_1_1(self, data, variant, arch, image):
+        if arch == "src":
+            # move src under binary arches
+            for variant_arch in data["payload"]["images"][variant]:
+                if variant_arch == "src":
+                    continue
+                self.add(variant, variant_arch, image)
+        else:
+            self.add(variant, arch, image)
+
+''', ''))
+
+M("n79", "neutral", [], "label patterns folded into one correctly grouped alternation",
+  (CI, '''def verify_label(label):
+    if label is None:
+        return
+    found = False
+    for pattern in LABEL_RE_LIST:
+        if pattern.match(label):
+            found = True
+            break
+    if not found:
+        raise ValueError("Label in unknown format: %s" % label)
+    return label''', '''LABEL_RE = re.compile(r"^(?:%s)-\\d+\\.\\d+$" % "|".join(re.escape(i) for i in LABEL_NAMES))
+
+
+def verify_label(label):
+    if label is None:
+        return
+    if not LABEL_RE.match(label):
+        raise ValueError("Label in unknown format: %s" % label)
+    return label'''),
+  (CI, '''LABEL_RE_LIST = []
+for label_name in LABEL_NAMES:
+    # create $label_name-$major_ver.$minor_ver patterns
+    LABEL_RE_LIST.append(re.compile(r"^%s-\\d+\\.\\d+$" % label_name))
+''', ''))
+
+M("n80", "neutral", [], "Header.is_legacy property (version_tuple < VERSION) used as the gate of Images.deserialize",
+  (CO, '''    def set_current_version(self):''', '''    @property
+    def is_legacy(self):
+        """True if the metadata were written in an older format than the current one."""
+        return self.version_tuple < VERSION
+
+    def set_current_version(self):'''),
+  (IM, '''                    if self.header.version_tuple <= (1, 1):
+                        self._add_1_1(data, variant, arch, image_obj)''', '''                    if self.header.is_legacy:
+                        self._add_1_1(data, variant, arch, image_obj)'''))
